@@ -62,8 +62,9 @@ type shardArgs struct {
 	Tier     string
 	Seed     int64
 	Shard, N int
-	From     int // first case index to consider (restart after a death)
-	Only     int // -1 or a single case
+	From     int    // first case index to consider (restart after a death)
+	Only     int    // -1 or a single case
+	Skip     string // comma-separated case indices not to run (cases a previous process of this shard died or hung in)
 	Out      string
 	Progress string
 	CPUMul   float64
@@ -161,7 +162,7 @@ func RunShard(a shardArgs) int {
 				why = "blocked"
 			}
 			tick++
-			if tick%5 == 0 && !a.Race {
+			if (tick%5 == 0 || ms.HeapAlloc > 2<<30) && !a.Race { // once a second; every tick once the heap is large
 				runtime.ReadMemStats(&ms)
 				if ms.HeapAlloc > 6<<30 {
 					why = "heap"
@@ -181,13 +182,22 @@ func RunShard(a shardArgs) int {
 		}
 	}()
 
+	skip := map[int]bool{}
+	for _, f := range strings.Split(a.Skip, ",") {
+		if n, err := strconv.Atoi(strings.TrimSpace(f)); err == nil {
+			skip[n] = true
+		}
+	}
+	res.mu.Lock()
+	res.Ckpt = a.From
+	res.mu.Unlock()
 	lastWrite := time.Now()
 	for k := 0; k < ncases; k++ {
 		if a.Only >= 0 {
 			if k != a.Only {
 				continue
 			}
-		} else if ShardOf(k, a.N) != a.Shard || k < a.From {
+		} else if ShardOf(k, a.N) != a.Shard || k < a.From || skip[k] {
 			continue
 		}
 		if pf != nil {
@@ -211,7 +221,10 @@ func RunShard(a shardArgs) int {
 		wmu.Lock()
 		curCase = -1
 		wmu.Unlock()
+		res.mu.Lock()
 		res.Cases++
+		res.Ckpt = k + 1
+		res.mu.Unlock()
 		if a.Max > 0 && res.Cases >= a.Max && a.Only < 0 {
 			res.Next = k + 1
 			break
@@ -368,6 +381,31 @@ func supervise(pc *ParentCtx, race bool, shard, n int, out *ShardResult, mu *syn
 	}
 	from := 0
 	blocked := 0
+	var skips []string // cases a process of this shard died or hung in: decided, never run again in the shard
+	gapEnd := -1       // last index of a stretch that is being run again because its results died with a process
+	// advance: case k is decided (reported, or re-run alone). The next process of this shard leaves it out and starts
+	// where the last checkpoint of the ended one stops: what ran after that checkpoint died with the process and is
+	// run again. A death inside such a stretch gives up on the stretch and continues behind the case (a delayed
+	// effect of an earlier case would otherwise be met again and again).
+	advance := func(k int, r *ShardResult) {
+		if os.Getenv("VCHECK_DEBUG") != "" {
+			rc, rk := -1, -1
+			if r != nil {
+				rc, rk = r.Cases, r.Ckpt
+			}
+			fmt.Fprintf(os.Stderr, "DEBUG advance shard=%d k=%d from=%d gapEnd=%d r.Cases=%d r.Ckpt=%d\n", shard, k, from, gapEnd, rc, rk)
+		}
+		skips = append(skips, strconv.Itoa(k))
+		ckpt := from
+		if r != nil && r.Ckpt > ckpt {
+			ckpt = r.Ckpt
+		}
+		if k > gapEnd && ckpt <= k {
+			from, gapEnd = ckpt, k
+			return
+		}
+		from = k + 1
+	}
 	tag := fmt.Sprintf("%s-%d", map[bool]string{false: "plain", true: "race"}[race], shard)
 	for attempt := 0; attempt < 200; attempt++ {
 		outF := filepath.Join(pc.Scratch, tag+".json")
@@ -377,6 +415,9 @@ func supervise(pc *ParentCtx, race bool, shard, n int, out *ShardResult, mu *syn
 		_ = os.Remove(progF)
 		args := []string{"shard", "-prop", p.ID, "-tier", pc.Tier, "-seed", strconv.FormatInt(pc.Seed, 10),
 			"-shard", strconv.Itoa(shard), "-n", strconv.Itoa(n), "-from", strconv.Itoa(from), "-out", outF, "-progress", progF}
+		if len(skips) > 0 {
+			args = append(args, "-skip", strings.Join(skips, ","))
+		}
 		if race {
 			args = append(args, "-race")
 		}
@@ -425,8 +466,14 @@ func supervise(pc *ParentCtx, race bool, shard, n int, out *ShardResult, mu *syn
 			// a signature that a re-run alone has already confirmed in this run is not re-run again (a change that
 			// blocks one case blocks many; every further case would cost minutes)
 			if !known && !pc.confirmedHang(sig) {
-				ok = rerunAlone(pc, exe, race, k, 10)
-				if !ok {
+				var ar *ShardResult
+				ar, ok, _ = rerunAloneRes(pc, exe, race, k, 10)
+				if ok {
+					// what the case observed when it ran to its end counts (the aborted attempt recorded only its beginning)
+					mu.Lock()
+					merge(out, ar)
+					mu.Unlock()
+				} else {
 					pc.confirmHang(sig)
 				}
 			}
@@ -456,9 +503,53 @@ func supervise(pc *ParentCtx, race bool, shard, n int, out *ShardResult, mu *syn
 				pc.Inconclusive(fmt.Sprintf("shard %s died before its first case: %s: %s", tag, status, tailFile(errF, 600)))
 				return
 			}
+			if killedByKernel(cmd) {
+				// SIGKILL, which nothing in the harness sends: the kernel's out-of-memory killer. It picks the largest
+				// process of the machine, which is the culprit only if it is; and it can be faster than the heap
+				// watchdog. The case is decided by a run alone, under the watchdog: completing there means the death
+				// was collateral, exceeding a budget there is reported as that (with the signature the case declared).
+				ar, aok, akilled := rerunAloneRes(pc, exe, race, k, 10)
+				mu.Lock()
+				out.Cover["children-killed-by-the-kernel(decided-by-a-run-alone)"]++
+				mu.Unlock()
+				if aok {
+					mu.Lock()
+					merge(out, ar)
+					out.Slow = append(out.Slow, k)
+					mu.Unlock()
+					advance(k, r)
+					continue
+				}
+				if !akilled && ar != nil && ar.Abort != "" {
+					sig := "hang-" + ar.Abort
+					if ar.AbortSig != "" {
+						sig = ar.AbortSig
+					}
+					if p.CrashInconclusive {
+						pc.Inconclusive(fmt.Sprintf("case %d exceeded the %s budget when re-run alone after the kernel killed its shard (totality is not this property's subject)", k, ar.Abort))
+					} else {
+						mu.Lock()
+						out.Violations = append(out.Violations, Violation{Prop: p.ID, Sig: sig, Case: k,
+							Msg:    fmt.Sprintf("the kernel killed the shard running case %d (out of memory), and re-run alone the case exceeded the %s budget", k, ar.Abort),
+							Detail: headFile(errF, 3000)})
+						out.Cover["violations:"+sig]++
+						mu.Unlock()
+					}
+					advance(k, r)
+					continue
+				}
+				if akilled {
+					// killed again although it ran alone under the heap watchdog: memory is short on this machine for
+					// reasons the harness cannot attribute (neighbouring processes); not decided
+					pc.Inconclusive(fmt.Sprintf("the kernel killed the shard running case %d and killed the case again when it ran alone (out of memory on this machine)", k))
+					advance(k, r)
+					continue
+				}
+				status += "; died when re-run alone"
+			}
 			if p.CrashInconclusive {
 				pc.Inconclusive(fmt.Sprintf("child died (%s) in case %d (totality is not this property's subject): %s", status, k, headFile(errF, 400)))
-				from = k + 1
+				advance(k, r)
 				continue
 			}
 			mu.Lock()
@@ -468,7 +559,7 @@ func supervise(pc *ParentCtx, race bool, shard, n int, out *ShardResult, mu *syn
 			out.Cover["violations:process-death"]++
 			mu.Unlock()
 		}
-		from = k + 1
+		advance(k, r)
 		if blocked >= 3 {
 			// three blocked cases are reported; the rest of this shard's cases are not run (each would wait again)
 			mu.Lock()
@@ -481,6 +572,22 @@ func supervise(pc *ParentCtx, race bool, shard, n int, out *ShardResult, mu *syn
 }
 
 func rerunAlone(pc *ParentCtx, exe string, race bool, k int, mul float64) bool {
+	_, ok, _ := rerunAloneRes(pc, exe, race, k, mul)
+	return ok
+}
+
+// killedByKernel reports whether the child ended by SIGKILL.
+func killedByKernel(cmd *exec.Cmd) bool {
+	if cmd.ProcessState == nil {
+		return false
+	}
+	ws, ok := cmd.ProcessState.Sys().(syscall.WaitStatus)
+	return ok && ws.Signaled() && ws.Signal() == syscall.SIGKILL
+}
+
+// rerunAloneRes runs case k in a process of its own and returns what that process wrote, whether it completed, and
+// whether it was killed by SIGKILL.
+func rerunAloneRes(pc *ParentCtx, exe string, race bool, k int, mul float64) (*ShardResult, bool, bool) {
 	outF := filepath.Join(pc.Scratch, fmt.Sprintf("alone-%d.json", k))
 	args := []string{"shard", "-prop", pc.Prop.ID, "-tier", pc.Tier, "-seed", strconv.FormatInt(pc.Seed, 10),
 		"-only", strconv.Itoa(k), "-out", outF, "-cpumul", fmt.Sprint(mul)}
@@ -491,7 +598,7 @@ func rerunAlone(pc *ParentCtx, exe string, race bool, k int, mul float64) bool {
 	cmd.Env = append(os.Environ(), "VCHECK_SCRATCH="+pc.Scratch)
 	err := cmd.Run()
 	r := readShard(outF)
-	return err == nil && r != nil && r.Done
+	return r, err == nil && r != nil && r.Done, killedByKernel(cmd)
 }
 
 // RunParent is `vcheck run <id> <tier>`.
